@@ -264,6 +264,17 @@ pub fn run(maxn: usize) -> (usize, usize, Vec<DFail>) {
                     })
                     .collect();
                 check!("R-FMLOOP: into_iter().filter_map().collect() = items in order, Some results pushed at the back", format!("len {} mask {:b}", n, mask), (exp.iter().map(|x| x + 100).collect::<Vec<_>>(), (0..n as u32).collect::<Vec<_>>()), (s(&out), seen));
+                // FilterMap::new's chain: iter().enumerate().filter_map(..).unzip()
+                let mut seen = Vec::new();
+                let (va, ix): (Vector<u32>, std::collections::VecDeque<usize>) = v(n)
+                    .iter()
+                    .enumerate()
+                    .filter_map(|(i, x)| {
+                        seen.push((i, *x));
+                        if mask & (1 << *x) != 0 { Some((*x + 100, i)) } else { None }
+                    })
+                    .unzip();
+                check!("chain: iter().enumerate().filter_map().unzip() = items in order with their index, Some results split in order", format!("len {} mask {:b}", n, mask), (exp.iter().map(|x| x + 100).collect::<Vec<_>>(), exp.iter().map(|x| *x as usize).collect::<Vec<_>>(), (0..n).map(|i| (i, i as u32)).collect::<Vec<_>>()), (s(&va), ix.iter().cloned().collect::<Vec<_>>(), seen));
             }
         }
         // R-OPTCOMB: the combinators are their match / if forms, the closure runs at most once
